@@ -307,7 +307,11 @@ ExecOne(st, a, evt, eng, proc) ==
   LET st0 == IF eng = "pure" THEN Log(st, L("rec", a.name, "", {}))
              ELSE Log(st, L("ax", a.name, "", {}))
   IN IF eng = "pure" THEN
-        IF a.kind = "assign" THEN [st0 EXCEPT !.ctx = [@ EXCEPT ![a.arg[1]] = a.arg[2]]] ELSE st0
+        \* the probe only records actions; assign and (undelayed) raise are part of the
+        \* computed next state and are applied
+        IF a.kind = "assign" THEN [st0 EXCEPT !.ctx = [@ EXCEPT ![a.arg[1]] = a.arg[2]]]
+        ELSE IF a.kind = "raise" THEN Enqueue(st0, PlainEv(a.arg[1]), eng)
+        ELSE st0
      ELSE CASE a.kind = "user" ->
                  IF a.name \notin D.actionImpl
                  THEN [st0 EXCEPT !.err = <<"ImplementationMissingError", "action", a.name>>]
